@@ -22,7 +22,9 @@ RULE = (
     "version_req.matches(&release.version) and the loop iterates the sorted pubfile.releases. R4 (distinct names) in gen_locks the "
     "value reserved by name_table.insert and the name stored in the Lock are the same local (the possibly suffixed name), reserved on "
     "every path before the Lock is built. R5 (locked release first) in every caller of gen_locks (new, update) self.lock_table is not "
-    "cleared, taken or modified before gen_locks runs: resolve_version_from_lockfile reads it."
+    "cleared, taken or modified before gen_locks runs: resolve_version_from_lockfile reads it. R6 (table sorted) every Lockfile function "
+    "that inserts into self.lock_table reaches its return only through sort_table, whose comparator is cmp(b.source, a.source): the first "
+    "matching lock resolve_version_from_lockfile returns is the highest locked release."
 )
 
 CRATES = ["veryl_metadata", "veryl_path"]
@@ -305,7 +307,75 @@ def run(world, tier, info, only=None):
               "self.lock_table is not modified before gen_locks consults it" if not early else
               "self.lock_table is modified (%s) before gen_locks runs: resolve_version_from_lockfile then finds no locked release and every "
               "dependency jumps to its latest matching release" % early[:2])
+    _table_sorted_after_fill(ck, w)
     return ck.finish(info)
+
+
+def _table_sorted_after_fill(ck, w):
+    import flow
+    """R6: resolve_version_from_lockfile returns the first lock of a url's list that matches, so "the best version" relies on every list
+    being sorted from the highest release down. Every function that adds locks to self.lock_table (HashMap::entry / insert with the
+    table as receiver) must call Lockfile::sort_table on every path from the insertion to its return, and sort_table's comparator is
+    cmp(b.source, a.source)."""
+    ST = LF + "Lockfile::sort_table"
+    ADD = re.compile(r"hash::map::HashMap::<K, V, S(, A)?>::(entry|insert|extend)$")
+    n = 0
+    for p, x in sorted(w.fns.items()):
+        if not p.startswith(LF + "Lockfile::") or "{" in p[len(LF):] or x.get("alias_of") or p == ST:
+            continue
+        if not any(c["c"] and ADD.search(c["c"]) for c in x["calls"]):
+            continue
+        g = Fn(w.mir(p))
+        adds = []
+        for bi, t in g.calls():
+            if not ADD.search(t.get("callee") or "") or not t["args"]:
+                continue
+            r, pth = flow.access_path(g, t["args"][0])
+            if "lock_table" in pth:
+                adds.append((bi, t))
+        if not adds:
+            continue
+        n += 1
+        gates = [bi for bi, t in g.calls("^" + re.escape(ST) + "$")]
+        bad = []
+        for bi, t in adds:
+            nxt = t.get("to")
+            if nxt is not None and flow.escapes(g, nxt, gates):
+                bad.append(t["l"])
+        short = p.split("::")[-1]
+        ck.ob("R6", "sorted-after-fill:" + short, not bad, site(x, bad[0] if bad else None),
+              "every path from an insertion into lock_table to the return of %s passes through sort_table" % short if not bad else
+              "%s adds locks to lock_table (line %s) and can return without sort_table: resolve_version_from_lockfile takes the first "
+              "matching lock of a list, which is then not the highest locked release" % (short, sorted(set(bad))))
+    ck.floor("R6", "functions that fill lock_table", n, 3)
+    if ST not in w.fns:
+        ck.missing("R6", ST)
+        return
+    sm = w.fns[ST]
+    desc = None
+    for c in sm.get("closures", []):
+        if c not in w.fns:
+            continue
+        cf = Fn(w.mir(c))
+        if cf.nargs == 3 and cf.ty(0) == "core::cmp::Ordering":
+            cmps = cf.calls(r"as core::cmp::Ord>::cmp$|as core::cmp::PartialOrd>::partial_cmp$")
+            rev = cf.calls(r"Ordering::reverse$")
+            if len(cmps) != 1:
+                continue
+            _, ct = cmps[0]
+            p0 = cf.prov(ct["args"][0], depth=8)
+            p1 = cf.prov(ct["args"][1], depth=8)
+
+            def from_arg(pv, k):
+                return any(y[0] == "arg" and y[1] == k and any(q[0] == "f" and q[1] == "source" for q in y[2]) for y in pv)
+            b_first = from_arg(p0, 3) and from_arg(p1, 2)
+            a_first = from_arg(p0, 2) and from_arg(p1, 3)
+            if b_first or a_first:
+                desc = (b_first and not rev) or (a_first and bool(rev))
+    ck.ob("R6", "sort_table/descending", desc, site(sm),
+          "sort_table orders every list by cmp(b.source, a.source): highest release first" if desc else
+          ("sort_table's comparator is ascending: the first matching lock is the lowest locked release" if desc is False else "sort_table's comparator not recognised"))
+
 
 
 def _rl(g, op):
